@@ -386,7 +386,8 @@ def _n_cont(out: bytes) -> int:
     return sum(1 for ln in out.split(b'\r\n') if ln.startswith(b'+ ') or ln == b'+')
 
 
-async def run_exchange(conn, line: bytes, client_lines: list[bytes]) -> tuple[bytes, int]:
+async def run_exchange(conn, line: bytes, client_lines: list[bytes],
+                       eol: bytes = b'\r\n') -> tuple[bytes, int]:
     """Send `line` (CRLF added; synchronising literals honoured by Conn.cmd);
     while the server has asked for more continuations than were answered, no
     tagged completion has been written yet and client lines remain, send the
@@ -394,12 +395,14 @@ async def run_exchange(conn, line: bytes, client_lines: list[bytes]) -> tuple[by
     untagged updates right after `+ Idling.`).  Returns (all output, lines
     used)."""
     tag = line.split(b' ', 1)[0]
-    out = await conn.cmd(line + b'\r\n')
-    literals = len(_SYNC_LIT.findall(line + b'\r\n'))
+    out = await conn.cmd(line + eol)
+    literals = len(_SYNC_LIT.findall(line + eol))
     used = 0
     while used < len(client_lines) and not conn.closed \
             and tagged(out, tag)[0] == 'NONE' and _n_cont(out) - literals > used:
-        out += await conn.send(client_lines[used] + b'\r\n')
+        cl = client_lines[used]
+        # a client line that already carries its terminator (e.g. a bare LF) is sent as is
+        out += await conn.send(cl if cl.endswith(b'\n') else cl + b'\r\n')
         used += 1
     return out, used
 
